@@ -72,7 +72,7 @@ VAR_MENU = {
 }
 
 
-def _state_for(r, cellvars, p=50):
+def _state_for(r, cellvars, p=50, extreme=False):
     st = {}
     for v, a in cellvars.items():
         if v in ('t', 'd', 'sd', 'lst'):
@@ -80,6 +80,9 @@ def _state_for(r, cellvars, p=50):
         if r.chance(p):
             if v == 'f':
                 st[v] = r.rint(0, 64) / 8
+            elif extreme and v in ('n', 'r') and r.chance(50):
+                # large and negative integers (conservation must be exact)
+                st[v] = r.pick([(1 << 60) + r.rint(0, 9), -r.rint(1, 41), (1 << 53) + 1 + 2 * r.rint(0, 9)])
             else:
                 st[v] = r.rint(0, 40)
     return st
@@ -93,7 +96,7 @@ def gen_case(seed):
         'delpath': r.chance(10), 'steps': r.chance(50), 'stepactor': r.chance(30),
         'viewer': r.chance(70), 'quiet': r.chance(25), 'explicit': r.chance(50),
         'two_actors': r.chance(30), 'moveupdate': r.chance(40),
-        'tokens': r.chance(35), 'stepviewer': r.chance(40),
+        'tokens': r.chance(35), 'stepviewer': r.chance(40), 'extreme': r.chance(20),
     }
     names = ['n'] + r.sample([v for v in VAR_MENU if v not in ('n', 't')], r.rint(1, 5))
     if swarm['steps']:
@@ -133,7 +136,8 @@ def gen_case(seed):
         templates[tname] = t
     init_cells = {'agents': [], 'pool': []}
     for i in range(r.rint(1, 3)):
-        init_cells['agents'].append(['a%d' % i, r.pick(['cellA', 'cellB']), _state_for(r, cellvars)])
+        init_cells['agents'].append(['a%d' % i, r.pick(['cellA', 'cellB']),
+                                     _state_for(r, cellvars, extreme=swarm['extreme'])])
     for i in range(r.rint(0, 2)):
         init_cells['pool'].append(['q%d' % i, r.pick(['cellA', 'cellB']), _state_for(r, cellvars)])
 
@@ -695,9 +699,9 @@ def law(v, a, m, shares, explicit, cellvars, mother_vars):
         if isinstance(m, bool) or not isinstance(m, (int, float)):
             return None
         if isinstance(m, int):
+            # exact halves, the remainder to one side: the shares sum to the
+            # mother's value and differ by at most one (any sign, any size)
             lo, hi = m // 2, m - m // 2
-            if m < 0:
-                lo, hi = int(m / 2), m - int(m / 2)
             cands = [[lo, hi], [hi, lo]]
             for i in (0, 1):
                 if exp[i] is not None:
